@@ -17,6 +17,10 @@ Profiles (one per property that uses this oracle):
           of call, on a few programs, framed by turns                                                                   -> C09
   externs plain play, line by line, of programs whose external functions are bound (look-ahead safe or not):
           the calls the host receives during every continue - function, arguments, order, and WHEN - are compared     -> C12
+  errors  programs that raise runtime errors (a divisor that is zero, a loose end) and warnings (a temporary read before
+          its declaration ran) at chosen points, played with and without an error handler, with continues, choices, path
+          jumps, save / load and resets after the fault: what the handler receives during every call, what stays readable,
+          the result of every continue and whether the story can go on are compared                                    -> C13
 A mismatch is attributed to the property of the profile only from the first call of the profile's own kind on;
 earlier ones are handed to C01 (plain play), whose check runs the plain profile itself."""
 import json
@@ -29,9 +33,20 @@ import gen_ast
 import lib
 
 SPECIAL = {"save": {"save", "load"}, "flows": {"switch_flow", "switch_default", "remove_flow"}, "reset": {"reset"},
-           "eval": {"eval_fn"}, "observe": {"observe", "remove_observer"}, "slices": {"cont_async"}, "refuse": None, "plain": None, "externs": None, "mixed": None, "exhaustive": None}
+           "eval": {"eval_fn"}, "observe": {"observe", "remove_observer"}, "slices": {"cont_async"}, "refuse": None, "plain": None, "externs": None, "mixed": None, "exhaustive": None, "errors": None}
 OWNER = {"save": "C02", "flows": "C10", "reset": "C17", "refuse": "C09", "plain": "C01", "eval": "C16", "observe": "C11",
-         "slices": "C08", "externs": "C12", "mixed": "C09", "exhaustive": "C09"}
+         "slices": "C08", "externs": "C12", "mixed": "C09", "exhaustive": "C09", "errors": "C13"}
+
+
+def msg_class(text):
+    """the kind of a runtime message, as the model names it (None: not a message of the model's fragment)"""
+    if "Cannot divide" in text or "Cannot take" in text:
+        return "division"
+    if "ran out of content" in text or "unexpectedly reached end of content" in text:
+        return "out"
+    if "Variable not found" in text:
+        return "novar"
+    return None
 
 
 def chars(s):
@@ -65,6 +80,10 @@ def history(rnd, prog, profile, length):
                        observe=1, remove_observer=0.5, watch=0.5)
     if profile == "externs":
         weights.update(cont=14, choose=5, set_var=0.5, choose_path=0.7)
+    if profile == "errors":
+        weights.update(cont=12, choose=5, set_var=3, choose_path=1.5, reset=1.5, save=0.7, load=0.7)
+        if rnd.random() < 0.6:
+            ops.append({"op": "set_handler"})
     if profile == "slices":
         weights.update(cont_async=12, cont=3, choose=4, switch_flow=0.7, reset=0.3, choose_path=1.5)
     names = list(weights)
@@ -77,8 +96,10 @@ def history(rnd, prog, profile, length):
             ops += [{"op": "save", "slot": slot}] + ([{"op": "cont"}] if rnd.random() < 0.5 else []) + [{"op": "load", "slot": slot}]
             ops += [{"op": "turn"}, {"op": "choose", "i": rnd.randrange(1 << 16), "mod": True}]
         return ops
-    for _ in range(length):
+    for step in range(length):
         k = rnd.choices(names, [weights[n] for n in names])[0]
+        if profile == "errors" and step == length // 2 and rnd.random() < 0.3:
+            ops.append({"op": "set_handler"})        # a handler installed late: what is pending is handed over at the next continue
         if k == "cont":
             # mostly to the end of the turn (as many conts as the story allows), sometimes single lines
             ops += [{"op": "turn"}] if rnd.random() < (0.55 if profile != "externs" else 0.8) else [{"op": "cont"}] * rnd.choice([1, 1, 2])
@@ -90,7 +111,7 @@ def history(rnd, prog, profile, length):
             ops += [{"op": "turn"}] if rnd.random() < 0.5 else [{"op": "cont"}] * rnd.choice([1, 2])
         elif k == "set_var":
             name = rnd.choice(ints) if ints and rnd.random() > bad else "nosuch"
-            ops.append({"op": "set_var", "name": name, "value": {"t": "int", "v": rnd.randint(0, 5)}})
+            ops.append({"op": "set_var", "name": name, "value": {"t": "int", "v": 0 if profile == "errors" and rnd.random() < 0.6 else rnd.randint(0, 5)}})
         elif k == "choose_path":
             name = rnd.choice(knots) if rnd.random() > bad else rnd.choice(["nosuch", "k99"])
             ops.append({"op": "choose_path", "path": name, "reset": rnd.random() < 0.5})
@@ -195,7 +216,8 @@ def run(profile, tier, seed, nprog=None, nhist=None, length=None, name=None):
     lib.build("debug")
     rnd = random.Random("%s/%s" % (profile, seed))
     focus = {"save": "threads", "observe": "assign", "externs": "externs"}.get(profile)
-    progs = [gen_ast.generate(seed * 7000003 + i + 31 * sum(map(ord, profile)), c01.DEFAULT, knots=2 + i % 3,
+    features = c01.DEFAULT | {"faults"} if profile == "errors" else c01.DEFAULT
+    progs = [gen_ast.generate(seed * 7000003 + i + 31 * sum(map(ord, profile)), features, knots=2 + i % 3,
                               focus=focus if i % 2 else None) for i in range(nprog)]
     scs, meta = [], {}
     if profile == "exhaustive":
@@ -224,8 +246,12 @@ def run(profile, tier, seed, nprog=None, nhist=None, length=None, name=None):
             if r.get("n", 0) <= 0 or r.get("op") in ("new", "bind"):
                 continue
             o = r.get("obs") or {}
-            if r.get("res") in ("panic", "skipped") or "obs_panic" in r or o.get("errors"):
-                bad = True      # a runtime error of the story (fuel, ran out of content): not this oracle's fragment
+            texts = list(o.get("errors") or []) + list(o.get("warnings") or []) + [c["text"] for c in (r.get("cb") or []) if c.get("k") == "msg"]
+            if r.get("res") in ("panic", "skipped") or "obs_panic" in r or any(msg_class(t) is None for t in texts) or \
+                    (texts and profile != "errors"):
+                # a message outside the model's fragment (the step fuel of the harness, ...); and only the errors profile goes
+                # on after a runtime message (function evaluation, slices and external calls on a failed story are not modelled)
+                bad = True
                 break
             op = r["opfull"]
             sv = c01.save_view(o["save"], flows) if isinstance(o.get("save"), dict) and "flows" in o["save"] else None
@@ -236,6 +262,7 @@ def run(profile, tier, seed, nprog=None, nhist=None, length=None, name=None):
             seen = {"text": chars(text), "tags": [chars(t) for t in tags], "can": bool(o.get("can")),
                     "choices": [{"text": chars(c["text"]), "tags": [chars(t) for t in c.get("tags", [])]} for c in o.get("choices", [])],
                     "vars": vs or {"_": {"t": "int", "v": 0}},
+                    "nerr": len(o.get("errors") or []), "warns": [msg_class(t) for t in (o.get("warnings") or [])],
                     "cur": (o.get("save") or {}).get("currentFlowName", "") if isinstance(o.get("save"), dict) else "",
                     "alive": sorted(((o.get("save") or {}).get("flows") or {}).keys()) if isinstance(o.get("save"), dict) else []}
             ret = (r.get("val") or {}).get("ret") if op["op"] == "eval_fn" and isinstance(r.get("val"), dict) else None
@@ -255,6 +282,7 @@ def run(profile, tier, seed, nprog=None, nhist=None, length=None, name=None):
             out.append({"op": op["op"], "i": r.get("chosen", op.get("obs", op.get("i", 0))),
                         "name": op.get("name", op.get("path", op.get("var", ""))), "notes": notes,
                         "calls": calls,
+                        "msgs": [{"k": c["type"], "c": msg_class(c["text"])} for c in (r.get("cb") or []) if c.get("k") == "msg"],
                         "finished": bool(r.get("finished", True)),
                         "args": op.get("args", []), "val": c01.value_json(ret) if ret is not None else {"t": "void"},
                         "ftext": chars((r.get("val") or {}).get("text", "")) if op["op"] == "eval_fn" and isinstance(r.get("val"), dict) else [],
@@ -304,7 +332,11 @@ def run(profile, tier, seed, nprog=None, nhist=None, length=None, name=None):
         m["actual"] = dict(res=c["ops"][m["op_index"] - 1]["res"], seen=c["ops"][m["op_index"] - 1]["seen"],
                            notes=c["ops"][m["op_index"] - 1]["notes"], finished=c["ops"][m["op_index"] - 1]["finished"])
         before = c["ops"][:m["op_index"]]
-        if special is None:
+        if profile == "errors":
+            # from the first message (or the installation of the handler) on, and whatever concerns messages
+            mine = m["rule"] in ("Host.messages", "Host.errors", "Host.warnings") or any(
+                o["msgs"] or o["seen"]["nerr"] or o["seen"]["warns"] or o["op"] == "set_handler" for o in before)
+        elif special is None:
             mine = profile in ("plain", "externs", "exhaustive") or any(o["res"] == "err" for o in before)
         else:
             # (for the reset profile a path jump WITH call-stack reset is a call of the profile's kind, too)
@@ -313,6 +345,10 @@ def run(profile, tier, seed, nprog=None, nhist=None, length=None, name=None):
     stats = dict(histories=len(cases), calls=sum(len(c["ops"]) for c in cases), programs=len(progs),
                  refused_calls=sum(1 for c in cases for o in c["ops"] if o["res"] == "err"),
                  special_calls=sum(1 for c in cases for o in c["ops"] if special and (o["op"] in special or profile == "reset" and o["op"] == "choose_path" and o["reset"])),
+                 messages_to_handler=sum(len(o["msgs"]) for c in cases for o in c["ops"]),
+                 failed_continues=sum(1 for c in cases for i, o in enumerate(c["ops"]) if o["op"] == "cont" and o["res"] == "err" and o["seen"]["nerr"]
+                                      and (i == 0 or not c["ops"][i - 1]["seen"]["nerr"])),
+                 calls_with_pending_warnings=sum(1 for c in cases for o in c["ops"] if o["seen"]["warns"]),
                  states=sum(r["distinct"] for r, _ in outs), transitions=sum(r["states"] for r, _ in outs), skipped=skipped,
                  wall=time.time() - t0, sample=dict(story=meta[cases[0]["case"]][0]["ink"],
                                                     history=[dict((k, v) for k, v in o.items() if k in ("op", "i", "name", "reset", "slot", "res")) for o in cases[0]["ops"][:25]]))
@@ -343,8 +379,9 @@ def report(prop, profile, own, handed, stats):
                                                failing_call=m["op_index"], rule=m["rule"], story=m["story"], history=m["history"],
                                                expected=m["expected"], actual=m["actual"]))
             print("VIOLATION property=%s replay=%s" % (prop, path))
-    lib.log("[%s] host model (%s): histories=%d calls=%d refused=%d special=%d states=%d violations=%d %s wall=%.1fs" % (
-        prop, profile, stats["histories"], stats["calls"], stats["refused_calls"], stats["special_calls"], stats["states"], nviol,
+    lib.log("[%s] host model (%s): histories=%d calls=%d refused=%d special=%d msgs=%d/%d/%d states=%d violations=%d %s wall=%.1fs" % (
+        prop, profile, stats["histories"], stats["calls"], stats["refused_calls"], stats["special_calls"],
+        stats["messages_to_handler"], stats["failed_continues"], stats["calls_with_pending_warnings"], stats["states"], nviol,
         json.dumps(seen), stats["wall"]))
     return nviol
 
@@ -360,7 +397,8 @@ def check(prop, profile, tier, seed):
         cov = ev.setdefault("coverage", {})
         cov["host_model"] = dict(oracle="spec/InkHost.tla via spec/InkHostOps.tla", profile=profile, histories=stats["histories"],
                                  calls=stats["calls"], refused_calls=stats["refused_calls"], calls_of_the_profile=stats["special_calls"],
-                                 states=stats["states"], skipped=stats["skipped"], sample=stats["sample"], violations=nviol)
+                                 states=stats["states"], skipped=stats["skipped"], messages_to_handler=stats["messages_to_handler"],
+                                 failed_continues=stats["failed_continues"], calls_with_pending_warnings=stats["calls_with_pending_warnings"], sample=stats["sample"], violations=nviol)
         cov["states"] = cov.get("states", 0) + stats["states"]
         cov["transitions"] = cov.get("transitions", 0) + stats["transitions"]
         cov["traces_validated_against_impl"] = cov.get("traces_validated_against_impl", 0) + stats["histories"]
